@@ -33,7 +33,7 @@ func init() {
 		Shards: func(tier string) int { return len(mach.Strict()) * subShards },
 		Run:    run,
 		Replay: replay,
-		Rule: "states = product states of the C01 exploration (implementation key x RFC 8259 PDA); for each state's witness: whitespace/newline insertions at inter-token positions x offending bytes (ref dies) and EOF (ref not accepting) x tails x chunkings {[]byte, one chunk, byte-wise, every 2-split, split after each newline} x reader answers {default, io.EOF with the last chunk, one empty read at every position (byte-wise: before io.EOF; quick tier and two-insertion pass: on the 2-splits next to the offending byte only)} and, for []byte, x {as given, likeliest continuation stored in the spare capacity, no spare capacity}; " +
+		Rule: "states = product states of the C01 exploration (implementation key x RFC 8259 PDA); for each state's witness: whitespace/newline insertions at inter-token positions x offending bytes (ref dies) and EOF (ref not accepting) x tails x chunkings {[]byte, one chunk, byte-wise, every 2-split, split after each newline} x reader answers {default, io.EOF with the last chunk, one empty read at every position, on the one-chunk reading, the byte-wise one (before io.EOF) and the 2-splits next to the offending byte (two-insertion pass: on the one-chunk reading only)} and, for []byte, x {as given, likeliest continuation stored in the spare capacity, no spare capacity}; " +
 			"distinct_nontrivial = distinct inputs whose offending byte lies beyond the first line (each is run under every chunking)",
 		Assumptions: []string{"BOM-less inputs; columns count bytes; lines end at \\n", "jsonref decides which byte is the first offending one",
 			"nesting bounded as in C01; whitespace placement bounded to <= 1 (quick) / 2 (thorough) insertions"},
@@ -178,12 +178,13 @@ func run(c *core.Ctx) {
 	c.Add("traces_validated_against_impl", c.Report().Counters["evaluations"])
 }
 
-// envAllSplits: run the reader-answer variants on every 2-split (thorough
-// tier, one-insertion pass) instead of on the splits next to the offending byte.
-var envAllSplits bool
+// envLight: the two-insertion pass of the thorough tier runs the reader-answer
+// variants on the one-chunk reading only (its inputs are whitespace variants of
+// inputs the one-insertion pass has put through all of them).
+var envLight bool
 
 func explore(c *core.Ctx, m *mach.M, sub, depth, maxIns int, countStates bool) {
-	envAllSplits = !c.Quick() && maxIns == 1
+	envLight = maxIns == 2
 	e := &bytemc.Explorer{M: m, D: depth}
 	e.Stop = func() bool { return c.Expired("C09 BFS") }
 	e.Run()
@@ -339,11 +340,14 @@ func judge(c *core.Ctx, m *mach.M, mode string, in []byte, k int, eof bool) {
 		check("reader", ck.class, ck.chunks, o)
 		// the reader's other lawful answers: io.EOF with the last chunk, one empty read
 		n := len(ck.chunks)
-		if !envAllSplits && n == 2 {
-			// quick tier and the two-insertion pass: only the 2-splits that fall next to the offending byte
-			if d := len(ck.chunks[0]) - k; d < -1 || d > 1 {
+		if n == 2 {
+			// only the 2-splits that fall next to the offending byte (none in the two-insertion pass)
+			if d := len(ck.chunks[0]) - k; envLight || d < -1 || d > 1 {
 				continue
 			}
+		}
+		if envLight && n > 1 {
+			continue
 		}
 		envs := []mach.Config{{EOFWithLast: true}}
 		if n <= 2 {
